@@ -18,6 +18,8 @@ func main() {
 		codecMain(os.Args[2:])
 	case "trace":
 		traceMain(os.Args[2:])
+	case "reader":
+		readerMain(os.Args[2:])
 	default:
 		fmt.Fprintln(os.Stderr, "unknown mode", os.Args[1])
 		os.Exit(2)
